@@ -292,6 +292,57 @@ def far_medium(ck, sh, mm, gname, boundary):
                     sqrt_mode='uf', prefer_true=('compute_far_field',))
 
 
+def medium_sweep(ck, sh, mm, gname):
+    """The limit is approached in practice by changing the constants of the ground and asking for the pattern again:
+    after the constants of a Medium were changed (and after a change of frequency) a second far-field request on the
+    SAME objects gives the pattern of a freshly built model, for all pulse currents."""
+    M = sh.mininec
+    for th, ph in DIRS[:2]:
+        def fn(th=th, ph=ph):
+            med = M.Medium(*GROUNDS[0][:2])
+            m = catalogue.build(M, gname, media=[med])
+            n = len(m.pulses)
+            I = _box_currents(n, 1.0)
+            _set_currents(m, I)
+            m.power = 1.0
+            e_first = _ff(m, M, th, ph)
+            med.permittivity, med.conductivity = GROUNDS[2][0], GROUNDS[2][1]
+            e_second = _ff(m, M, th, ph)
+            fresh = catalogue.build(M, gname, media=[M.Medium(*GROUNDS[2][:2])])
+            _set_currents(fresh, I)
+            fresh.power = 1.0
+            e_fresh = _ff(fresh, M, th, ph)
+            at, ap = farfield.coefficients(catalogue.build(M, gname), th, ph)
+            return dict(inputs=dict(I=I), a=e_second, b=e_fresh, bound=sum(abs(x) for x in at + ap) * 4)
+
+        def goals(o):
+            return [_tol_goal('E_theta after changing the ground constants = fresh model', o['a'][0], o['b'][0], o['bound']),
+                    _tol_goal('E_phi after changing the ground constants = fresh model', o['a'][1], o['b'][1], o['bound'])]
+
+        def replay(conc, gn, out, th=th, ph=ph):
+            I = np.array([complex(v) for v in conc['I']])
+            if np.abs(I).max() < 1e-6:
+                I = np.array([complex(1 + 0.3 * k, 0.5 - 0.2 * k) for k in range(len(I))])
+            med = mm.Medium(*GROUNDS[0][:2])
+            m = catalogue.build(mm, gname, media=[med])
+            m.current, m.power = I, 1.0
+            zen, azi = mm.Angle(5.0, 10.0, 9), mm.Angle(0.0, 45.0, 8)
+            m.compute_far_field(zen, azi)
+            med.permittivity, med.conductivity = GROUNDS[2][0], GROUNDS[2][1]
+            m.compute_far_field(zen, azi)
+            a = np.stack([m.far_field.e_theta, m.far_field.e_phi])
+            fresh = catalogue.build(mm, gname, media=[mm.Medium(*GROUNDS[2][:2])])
+            fresh.current, fresh.power = I, 1.0
+            fresh.compute_far_field(zen, azi)
+            b = np.stack([fresh.far_field.e_theta, fresh.far_field.e_phi])
+            if np.abs(a - b).max() <= 1e-9 * np.abs(b).max():
+                return None
+            return ('C11:medium-sweep', '%s: after the ground constants were changed from %s to %s the pattern still differs from a fresh model by %.3g of its maximum'
+                    % (gname, GROUNDS[0][:2], GROUNDS[2][:2], np.abs(a - b).max() / np.abs(b).max()), dict(kind='medium-sweep', geometry=gname))
+        prove_paths(ck, 'medium-sweep-%s-%g-%g' % (gname, th, ph), fn, goals, replay, max_paths=8, fork_policy='assume', twin_timeout_ms=1000,
+                    prefer_true=('compute_far_field',))
+
+
 def main(args):
     ck = Check('C11', args)
     ck.shadow_stats = symx.load().stats
@@ -302,11 +353,13 @@ def main(args):
         parts += [('split', ('G9', s, b, r)) for s in SPLITS for b in ('linear', 'circular') for r in (False,)]
         parts += [('split', ('G9', 'second-of-two', 'circular', True)), ('split', ('G14', 'second-of-three', 'circular', True))]
         parts += [('far_medium', ('G9', 'linear')), ('far_medium', ('G14', 'circular'))]
+        parts += [('medium_sweep', ('G9',)), ('medium_sweep', ('G14',))]
     else:
         parts += [('non_interference', (g,)) for g in ('G7', 'G9', 'G14')]
         parts += [('zero_limit', (g,)) for g in ('G7', 'G8', 'G9', 'G10', 'G14', 'G16')]
         parts += [('split', (g, s, b, r)) for g in ('G7', 'G9', 'G10', 'G14') for s in SPLITS for b in ('linear', 'circular') for r in (False, True)]
         parts += [('far_medium', (g, b)) for g in ('G7', 'G9', 'G14') for b in ('linear', 'circular')]
+        parts += [('medium_sweep', (g,)) for g in ('G7', 'G8', 'G9', 'G14')]
     run_parallel(ck, 'checks.c11', parts)
     ck.assumptions += ['geometry: ground members of the catalogue; directions %s (quick: the first two)' % DIRS,
                        'media constants of the split / further-medium clauses: %s (eps, sigma, height), 8 radials of 1 mm where present; '
